@@ -127,8 +127,8 @@ pub fn validate_expected_type(e: &Env, client_data_json: &ClientDataJson) {
 /// payload.
 ///
 /// This implements Step 12 of the WebAuthn assertion verification procedure.
-/// The challenge must be the base64url-encoded representation of the first 32
-/// bytes of the signature payload.
+/// The challenge must be the base64url-encoded representation of the signature
+/// payload, which must be exactly 32 bytes long.
 ///
 /// # Arguments
 ///
@@ -139,7 +139,7 @@ pub fn validate_expected_type(e: &Env, client_data_json: &ClientDataJson) {
 /// # Errors
 ///
 /// * [`WebAuthnError::SignaturePayloadInvalid`] - When the signature payload is
-///   too short or malformed.
+///   not exactly 32 bytes long.
 /// * [`WebAuthnError::ChallengeInvalid`] - When the challenge doesn't match the
 ///   expected base64url-encoded signature payload.
 ///
@@ -147,7 +147,9 @@ pub fn validate_expected_type(e: &Env, client_data_json: &ClientDataJson) {
 ///
 /// Step 12 in <https://www.w3.org/TR/webauthn-2/#sctn-verifying-assertion>
 pub fn validate_challenge(e: &Env, client_data_json: &ClientDataJson, signature_payload: &Bytes) {
-    let signature_payload: BytesN<32> = extract_from_bytes(e, signature_payload, 0..32)
+    // The unbounded range makes the extraction fail unless the payload is exactly
+    // 32 bytes long: a longer payload must not be accepted on its 32-byte prefix.
+    let signature_payload: BytesN<32> = extract_from_bytes(e, signature_payload, ..)
         .unwrap_or_else(|| panic_with_error!(e, WebAuthnError::SignaturePayloadInvalid));
 
     // base64 url encoded value of `signature_payload: Hash<32>`
